@@ -428,7 +428,14 @@ func execHist(args []string) ([]string, []string) {
 		return "U" + w.showKeys(ks)
 	}
 	if res == "new" {
-		defer shim.Close()
+		hung := false
+		defer func() {
+			if hung {
+				go shim.Close() // may block for ever on the lock that was leaked
+			} else {
+				shim.Close()
+			}
+		}()
 		for _, opS := range strings.Split(opsS, ";") {
 			if opS == "" {
 				continue
@@ -452,14 +459,29 @@ func execHist(args []string) ([]string, []string) {
 			}
 			u.setFaults(fspec)
 			times = append(times, strconv.FormatInt(time.Now().Unix(), 10))
-			o := func() (r string) {
-				defer func() {
-					if rec := recover(); rec != nil {
-						r = "crash"
-					}
+			// every operation runs under a watchdog: one that never returns (a leaked lock, a lost
+			// reply) ends the history with "hang" instead of blocking the harness
+			res := make(chan string, 1)
+			go func() {
+				res <- func() (r string) {
+					defer func() {
+						if rec := recover(); rec != nil {
+							r = "crash"
+						}
+					}()
+					return w.doOp(shim, u, op, arg)
 				}()
-				return w.doOp(shim, u, op, arg)
 			}()
+			var o string
+			select {
+			case o = <-res:
+			case <-time.After(20 * time.Second):
+				outs = append(outs, "hang")
+				hung = true
+			}
+			if hung {
+				break
+			}
 			if !strings.HasPrefix(fspec, "close") {
 				u.setFaults("-")
 			}
